@@ -1,6 +1,81 @@
 import WhVerif.Util.Proto
+import WhVerif.Spec.C01
+import WhVerif.Model.C01Gray
 namespace WhVerif.Driver.C01
-open Lean WhVerif.Proto
-/-- ops of property C01 are named `c01.<name>`; return `none` for ops that are not ours -/
-def handle (_op : String) (_j : Json) : Option Json := none
+open Lean WhVerif.Proto WhVerif.C01
+
+def optNat? (j : Json) : Option (Option Nat) :=
+  match j with
+  | Json.null => some none
+  | _ => (asNat? j).map some
+
+def parseRead (j : Json) : Option Read := do
+  let ind ← getNat? j "ind"
+  let first ← getNat? j "first"
+  let last ← getNat? j "last"
+  let es ← getList? j "entries"
+  let entries ← es.mapM (fun e => do
+    match ← natList? e with
+    | [c, a, w] => some (c, a, w)
+    | _ => none)
+  some { ind, first, last, entries }
+
+def parseInst (j : Json) : Option Inst := do
+  let ncols ← getNat? j "ncols"
+  let reads ← (← getList? j "reads").mapM parseRead
+  let nind ← getNat? j "nind"
+  let trios ← (← getList? j "trios").mapM (fun e => do
+    match ← natList? e with
+    | [f, m, c] => some (f, m, c)
+    | _ => none)
+  let geno ← (← getList? j "geno").mapM (fun perInd => do
+    (← asArr? perInd).mapM (fun perCol => do (← asArr? perCol).mapM optNat?))
+  let recomb ← getNatList? j "recomb"
+  some { ncols, reads, nind, trios, geno, recomb }
+
+def boolList? (j : Json) : Option (List Bool) := do
+  (← asArr? j).mapM (fun b => match b with
+    | Json.bool x => some x
+    | _ => (asNat? b).map (· != 0))
+
+def ofBoolList (l : List Bool) : Json := Json.arr (l.map Json.bool).toArray
+
+def superReads (I : Inst) (β : List Bool) (τ : List Nat) : Json :=
+  ofList (fun c =>
+    match getAlleles I c (restrict β (I.activeAt c)) (τ.getD c 0) with
+    | none => Json.null
+    | some l => ofList (fun p => ofNatList [p.1, p.2]) l) (List.range I.ncols)
+
+def handle (op : String) (j : Json) : Option Json :=
+  if op == "c01.solve" then
+    match (getObj? j "inst").bind parseInst with
+    | none => some badInput
+    | some I =>
+      let w := match witness I with
+        | none => Json.null
+        | some (β, τ) => Json.mkObj [("beta", ofBoolList β), ("tau", ofNatList τ)]
+      some (Json.mkObj [("cost", ofOptNat (dpCost I)), ("witness", w)])
+  else if op == "c01.cost" then
+    match (getObj? j "inst").bind parseInst with
+    | none => some badInput
+    | some I => some (Json.mkObj [("cost", ofOptNat (dpCost I))])
+  else if op == "c01.eval" then
+    match (getObj? j "inst").bind parseInst, (getObj? j "beta").bind boolList?, getNatList? j "tau" with
+    | some I, some β, some τ =>
+      some (Json.mkObj [("cost", ofOptNat (totalCost I β τ)), ("superreads", superReads I β τ)])
+    | _, _, _ => some badInput
+  else if op == "c01.brute" then
+    match (getObj? j "inst").bind parseInst with
+    | none => some badInput
+    | some I => some (Json.mkObj [("cost", ofOptNat (optCost I))])
+  else if op == "c01.colcost" then
+    match (getObj? j "inst").bind parseInst, getNat? j "c", (getObj? j "bits").bind boolList?, getNat? j "t" with
+    | some I, some c, some bs, some t =>
+      some (Json.mkObj [("direct", ofOptNat (colCost I c bs t)), ("table", ofOptNat (colCostTab I c bs t))])
+    | _, _, _, _ => some badInput
+  else if op == "c01.gray" then
+    match getNat? j "n" with
+    | some n => some (ofList (fun p => Json.arr #[ofNat p.1, ofInt p.2]) (WhVerif.C01.grayList n))
+    | none => some badInput
+  else none
 end WhVerif.Driver.C01
